@@ -500,7 +500,7 @@ func (r *Run) store() (ps []int, bad []string) {
 // IdleWait: an announce-triggered sync that shows no activity at the fault layer for this
 // long (longer than the client timeout) and has produced no event is taken to have ended
 // without one.
-var IdleWait = ClientTimeout + 250*time.Millisecond
+var IdleWait = ClientTimeout + 600*time.Millisecond
 
 func (r *Run) collect(n int, wait time.Duration) []Ev {
 	var out []Ev
